@@ -14,6 +14,7 @@
 #include "c20_fanref.h"
 #include "stir/IndexRange2D.h"
 #include <algorithm>
+#include <set>
 
 using namespace vf;
 using namespace stir;
@@ -31,6 +32,22 @@ smax(const std::string& key, double v)
   if (std::isfinite(v))
     stats().maxi(key, v);
 }
+
+//! exclusions of known findings applied in the current case (each signature counted once per case under excluded_known)
+std::set<std::string> g_excluded;
+inline void
+excluded(const std::string& sig)
+{
+  if (g_excluded.insert(sig).second)
+    {
+      stats().count("excluded:" + sig);
+      if (g_excluded.size() == 1)
+        stats().excluded_known++;
+    }
+}
+const char* const SIG_F1 = "C20:F1:fan_round_trip:bins_outside_symmetric_fan";
+const char* const SIG_F2 = "C20:F2:KL:in_ring_pairs_counted_twice";
+const char* const SIG_F3 = "C20:F3:block_factors:same_block_pair_in_fan";
 
 // tolerances (relative to the reference value of the entry unless said otherwise); see props.d/C20.py for the calibration
 const double TOL_APPLY = 1e-6;   // one float product + one float multiply
@@ -197,6 +214,8 @@ check_conversion(Ctx& X, FanProjData& fan_out)
                 // outside the (symmetric, odd-sized) fan: get_fan_info() truncates to min(max_tang,-min_tang) - finding F1.
                 // Not demanded unless the exclusion is switched off.
                 ++n_outside;
+                if (!no_exclude && !gap)
+                  excluded(SIG_F1);
                 if (no_exclude && !gap)
                   VF_CHECK(back[idx] == vals[idx], "round trip loses bin (seg ", s, ", ax ", ax, ", view ", v, ", tang ", t,
                            ") outside the symmetric fan: ", back[idx], " instead of ", vals[idx]);
@@ -288,6 +307,7 @@ check_apply(const char* what, const Ctx& X, const FanProjData& f0, const std::ve
 Result
 check(const json& c)
 {
+  g_excluded.clear();
   shared_ptr<Scanner> sc;
   shared_ptr<ProjDataInfo> pdi_sptr;
   try
@@ -350,6 +370,8 @@ check(const json& c)
   // transaxial blocks (constructor assert) and contains every block pair EXCEPT a block with itself; apply_block_norm and
   // make_block_data index it with the blocks of every pair of the fan without a range test, so the fan must not contain two
   // detectors of one block: half fan <= n/2 - crystals per block  (observation O2 in work/notes/C20_findings.md).
+  if (!no_exclude && B.nb_tr >= 2 && B.nb_tr % 2 == 0 && F.new_half_fan > nph / 2 - B.p_tr)
+    excluded(SIG_F3);
   const bool block_ok = B.nb_tr >= 2 && B.nb_tr % 2 == 0 && (no_exclude || F.new_half_fan <= nph / 2 - B.p_tr);
   BlockData3D bd;
   std::vector<double> bfac;
@@ -642,6 +664,8 @@ check(const json& c)
           smax("max rel dev stir::KL vs its own weighting", std::fabs(stir_kl - stir_weighting) / stir_weighting);
         if (x > 1e-6 * mag && s > 1e-6 * mag)
           smax("rel dev stir::KL vs once-per-LOR KL (finding F2)", std::fabs(stir_kl - once) / once);
+        if (!no_exclude && x > 1e-6 * mag && s > 1e-6 * mag)
+          excluded(SIG_F2); // STIR's weighting accepted although it is not proportional to the once-per-LOR KL
         if (!no_exclude || x == 0 || s == 0)
           VF_CHECK(close(stir_weighting) || close(once) || close(2 * once), "stir::KL = ", stir_kl, " but harness KL: once per LOR ", once, " (in-ring part ", s,
                    ", cross-ring part ", x, "), threshold ", thr);
